@@ -93,11 +93,14 @@ def authVerdict (l : Line) : Option AuthVerdict :=
   some { accept := Auth.accepts req, response := rsp, corrupt := l.nat "corrupt" }
 
 /-- the model-free clauses of the property about one authorized command -/
-def judgeAuth (c : CS) (l : Line) (what : String) : CS :=
+def judgeAuth (c : CS) (l : Line) (what : String) (mayIgnore : Bool := false) : CS :=
   match authVerdict l with
   | none => c
   | some v =>
     let rc := l.nat "rc"
+    -- `mayIgnore`: TPM_NV_ReadValue while nvLocked is FALSE — "all authorization checks are ignored ... if ownerAuth is present
+    -- the TPM MAY check the authorization HMAC" (the code does not): an accepted wrong HMAC is no violation there
+    let v := if mayIgnore && !v.accept && rc = 0 then { v with accept := true, corrupt := 0 } else v
     let c := branch c s!"auth/{if (l.get? "aes").isSome then "osap" else "oiap"}/corrupt={v.corrupt}/accept={v.accept}/rc={if rc = 0 then "ok" else if rc = TPM_AUTHFAIL then "authfail" else "other"}/rsp={match v.response with | none => "-" | some b => toString b}"
     let c := if (v.corrupt = 0) ≠ v.accept then
         mism c s!"internal: {what}: the client says corrupt={v.corrupt} but the Lean HMAC check says accept={v.accept}" else c
@@ -181,7 +184,7 @@ def stepNv (c : CS) (l : Line) : CS :=
   let name := l.str "name"
   let c := { c with rep := { c.rep with events := c.rep.events + 1 } }
   let c := if l.nat "ret" ≠ 0 then mism c s!"{name}: TPMLIB_Process returned {l.nat "ret"}" else c
-  let c := judgeAuth c l s!"{name} idx={l.nat "idx"}"
+  let c := judgeAuth c l s!"{name} idx={l.nat "idx"}" (name = "read" && !c.nv.mem.nvLocked)
   let c := { c with fl := Flags.invalidateSaved c.fl }
   -- the failed state (entered through the TIS error routes, which only the PCR model follows) is one state of one TPM
   let c := { c with nv := { c.nv with failed := c.nv.failed || c.st.failed } }
